@@ -118,6 +118,7 @@ func (s *CustomDiceStream) ReadExpr(entry string) (*VMValue, bool, error) {
 
 	parser := newParser("", s.data[absStart:], memoized(true))
 	parser.entrypoint = entry
+	parser.recover = true
 
 	data := parser.cur.data
 	data.code = make([]ByteCode, 64)
